@@ -169,6 +169,20 @@ CLAIMED["C03"] = dict(
     note="Combinations NumPy rejects with a dtype TypeError (bitwise on floats, // % on complex) are outside the statement's "
          "'shape, axis or index errors' (counted); what pytato rejects and NumPy accepts is allowed (counted).")
 
+CLAIMED["C08"] = dict(
+    technique="Lean 4 theorems about the executor as a transition system (progress, strictly decreasing measure, inputs present, "
+              "faithful) for ALL schedules + the real executor on a controlled fake MPI with exhaustive/seeded schedule exploration",
+    text="Proved (model Pt.Dist, any number of ranks/parts/messages, every state and every schedule): progress (WFexec P, not "
+         "terminal => some exec or deliver step is enabled: no deadlock, deliver only when nothing is ready as in the real loop); "
+         "decreasing / execution_bounded (every execution is finite); inputs_present (no use before production or after release, "
+         "with the refcount release of execute.py modelled); faithful (a terminal reachable state holds the reference solution for "
+         "every overall output); checkWFexec_sound; wf_implies_wfexec. Tie: the real execute_distributed_partition runs unmodified "
+         "on thread-ranks of a fake mpi4py whose scheduler owns every choice (Waitsome subsets, arrival order): exhaustive state-"
+         "pruned DFS over all choice lists for small programs (<=3 ranks, <=4 messages), default + 10 seeded schedules beyond; every "
+         "real trace must be a path of the Lean Step relation with equal enabled sets; every rank's result equals an independent "
+         "global reference evaluation; every real partition passes checkWFexec. Partial: MPI, OpenCL transfers and thread timing "
+         "are replaced by the scheduler (any delivery order, at least what MPI permits); parts are evaluated with NumPy.",
+    design_ref="§5 C08", note="faithful is conditional on IsSolution (the harness's global reference plays that role).")
 CLAIMED["C09"] = dict(
     technique="Lean 4 theorems (contract checker soundness, batch levels sound+complete, tag numbering consistent/injective/"
               "deterministic) + real partitions of thread-ranks on a controlled fake MPI fed to the verified checker",
